@@ -61,11 +61,28 @@ class CoopLock:
         return f"<CoopLock {self._real!r}>"
 
 
-def _lock() -> CoopLock:
+def _internal_caller() -> bool:
+    """Locks the interpreter's own threading machinery (or this simulator) creates stay real locks:
+    `threading._after_fork` re-creates `_active_limbo_lock` through the patched factory in every forked
+    worker, and a finishing client thread takes it in `Thread._delete` -- that must never be cooperative."""
+    import sys
+
+    try:
+        mod = sys._getframe(2).f_globals.get("__name__", "")
+    except ValueError:
+        return False
+    return mod == "threading" or mod.startswith(("jpsim.", "concurrent.", "multiprocessing", "asyncio", "logging", "queue"))
+
+
+def _lock() -> Any:
+    if _internal_caller():
+        return _REAL_LOCK()
     return CoopLock(_REAL_LOCK())
 
 
-def _rlock() -> CoopLock:
+def _rlock() -> Any:
+    if _internal_caller():
+        return _REAL_RLOCK()
     return CoopLock(_REAL_RLOCK())
 
 
